@@ -2069,6 +2069,11 @@ class FileIterator(FileStorageFormatter):
                 break
             self._pos = tend + 8
 
+            if h.status == "u":
+                # An undone transaction: skipped, as read_index() does.
+                pos = self._pos
+                continue
+
             return result
 
         self.close()
